@@ -109,7 +109,9 @@ var c17TokenRe = regexp.MustCompile("`[^`]*`|\"(?:[^\"\\\\]|\\\\.)*\"|[A-Za-z_][
 var c17TokenTable = []string{"{", "}", "(", ")", "[", "]", ",", "|", "|=", "!=", "|~", "!~", "=", "=~", "==", ">", "<", "+", "-", "*", "/", "%", "^",
 	"and", "or", "unless", "by", "without", "on", "ignoring", "group_left", "bool", "offset", "unwrap", "json", "logfmt", "regexp", "pattern", "unpack",
 	"line_format", "label_format", "decolorize", "distinct", "drop", "keep", "ip", "bytes", "duration", "sum", "topk", "sort", "count_over_time", "rate",
-	"quantile_over_time", "absent_over_time", "label_replace", "vector", "5m", "1s", "0", "1", "-1", "0.5", "1e308", "5KB", `""`, `"("`, `"{{"`, "`x`", "app", "#"}
+	"quantile_over_time", "absent_over_time", "label_replace", "vector", "5m", "1s", "0", "1", "-1", "0.5", "1e308", "5KB",
+	// hostile numeric constants
+	"9223372036854775807", "9223372036854775808", "4611686018427387904", "18446744073709551616", "1e309", "2147483648", "1000000000000", "100y", "292y", "9223372036854775807ns", "9999999999h", `""`, `"("`, `"{{"`, "`x`", "app", "#"}
 
 func c17Mutate(t *rapid.T, text string, other string) string {
 	toks := c17TokenRe.FindAllString(text, -1)
